@@ -18,8 +18,9 @@ import common
 
 ID = "C16"
 LEAN_MODEL_TARGETS = ["drv_c16"]
-LEAN_PROOF_TARGETS = ["PyroProps.C16"]
-AUDIT_FILES = ["PyroModel/Registry.lean", "PyroModel/Gen/C16.lean", "PyroProofs/Registry.lean", "PyroProps/C16.lean"]
+LEAN_PROOF_TARGETS = ["PyroProps.C16", "PyroProps.C16Ast", "PyroProps.C16Src"]
+AUDIT_FILES = ["PyroModel/Registry.lean", "PyroModel/Gen/C16.lean", "PyroProofs/Registry.lean", "PyroProps/C16.lean",
+               "PyroModel/RegistrySrc.lean", "PyroProps/C16Ast.lean", "PyroProps/C16Src.lean"]
 THEOREMS = [
     "Pyro.C16.C16_gen_fixes", "Pyro.C16.C16_gen_shape", "Pyro.C16.C16_gen_order",
     "Pyro.C16.C16_failed_register_unchanged",
@@ -30,8 +31,14 @@ THEOREMS = [
     "Pyro.C16.C16_F16a_needs_fix", "Pyro.C16.C16_F16b_needs_fix", "Pyro.C16.C16_F16c_needs_fix",
     "Pyro.C16.C16_F16d_needs_fix", "Pyro.C16.C16_F16e_needs_fix",
     "Pyro.Registry.invW_step", "Pyro.Registry.back_step", "Pyro.Registry.abs_step", "Pyro.Registry.reach",
+    # the source, transcribed on every run (harness/props/c16_tr.py -> namespace Pyro.Gen.C16Src), = the model
+    "Pyro.C16.C16_registered_translated", "Pyro.C16.C16_finalizer_translated", "Pyro.C16.C16_uriFor_translated",
+    "Pyro.C16.C16_registeredIds_translated", "Pyro.C16.C16_autoProxy_translated", "Pyro.C16.C16_unregister_translated",
+    "Pyro.C16.C16_register_translated",
+    "Pyro.C16.C16_source_failed_register_unchanged", "Pyro.C16.C16_source_double_refused",
+    "Pyro.C16.C16_source_return_unregistered", "Pyro.C16.C16_source_return_registered",
 ]
-SUITES = ["history"]
+SUITES = ["history", "transcription"]
 RULE = ("histories (<= 25 steps) over a pool of 16 objects — 6 of 3 ordinary exposed classes (one class falsy, one whose "
         "instances all compare equal), 2 of a __slots__ class that cannot carry the pyro attributes (register must fail "
         "cleanly), 5 whose classes derive from set / UUID / Decimal / datetime / array, 3 of a base class and its subclass "
@@ -340,7 +347,11 @@ def extract():
     f = _facts()
     b = lambda x: "true" if x else "false"
     c = f["cfg"]
+    import Pyro5.server as _S, Pyro5.core as _C
+    from props import c16_tr
+    src_text, _notes = c16_tr.transcribe(_S, _C)     # raises Untranslatable: reported by the runner as a broken tie
     return f"""-- GENERATED by harness/props/c16.py from Pyro5/server.py, Pyro5/serializers.py, Pyro5/core.py — do not edit
+import PyroModel.RegistrySrc
 namespace Pyro.Gen.C16
 /-- core.DAEMON_NAME -/
 def daemonName : String := {json.dumps(f["daemonName"])}
@@ -372,7 +383,7 @@ def registerEffects : List String := {json.dumps(f["registerEffects"])}
 /-- probe per serializer and builtin base type: a registered type replacement wins over `default()`'s builtin conversion -/
 def defaultHookFirst : List (String × Bool) := [{", ".join('(%s, %s)' % (json.dumps(n), b(v)) for n, v in f["defaultHookFirst"])}]
 end Pyro.Gen.C16
-"""
+""" + src_text
 
 
 # ----------------------------------------------------------------------------------------------------------
@@ -772,6 +783,8 @@ def describe(op):
 def _canon_model(line):
     """sort the dict-order parts of a driver reply (ids listings, final registry)"""
     parts = line.split(" | ")
+    if len(parts) == 4 and parts[3].startswith("src="):
+        parts = parts[:3]           # the transcription's verdict is judged separately (suite "transcription")
     if len(parts) != 3:
         return line
     rs = []
@@ -1063,6 +1076,10 @@ def _run_chunk(ctx, real, cfg, cases, do_model):
         for c, l, r, m in zip(cases, lines, reals, outs):
             if r != _canon_model(m):
                 ctx.mismatch("history", {"line": l, "ops": c["ops"], "source": c["name"] or "generated"}, r, _canon_model(m))
+            if not m.endswith(" | src=ok") and m != "bad-op":
+                # the source transcription (Pyro.Gen.C16Src), evaluated by the driver next to the model, disagrees with it
+                ctx.mismatch("transcription", {"line": l, "ops": c["ops"], "source": c["name"] or "generated"},
+                             "src=ok", m.rsplit(" | ", 1)[-1])
 
 
 def correspondence(ctx):
